@@ -234,7 +234,11 @@ def check(prop, mod, a, seed, t0):
 
 def write_replay(prop, ob, mod, eng):
     os.makedirs(os.path.join(OUT, "replay"), exist_ok=True)
-    path = os.path.join(OUT, "replay", ob.name.replace("/", "__").replace("@", "_at_").replace("#", "_") + ".json")
+    import hashlib
+    base = ob.name.replace("/", "__").replace("@", "_at_").replace("#", "_").replace(" ", "")
+    if len(base) > 120:
+        base = base[:100] + "_" + hashlib.sha1(base.encode()).hexdigest()[:10]
+    path = os.path.join(OUT, "replay", base + ".json")
     rp = {"property": prop, "obligation": ob.name, "status": ob.status, "backend": ob.backend,
           "solver_output": (ob.model or getattr(ob, "why", "") or "")[:20000], "confirmed": False, "path": path}
     mk = getattr(mod, "make_replay", None)
